@@ -57,6 +57,22 @@ CASES = [
      "            if old_service_info is None:\n                continue\n            assert old_service_info.server_key is not None\n            self._remove_from_index(self.types, old_service_info.type.lower(), info.key)\n            self._remove_from_index(self.servers, old_service_info.server_key, info.key)\n            del self._services[info.key]\n",
      "            if old_service_info is not None:\n                assert old_service_info.server_key is not None\n                self._remove_from_index(self.types, old_service_info.type.lower(), info.key)\n                self._remove_from_index(self.servers, old_service_info.server_key, info.key)\n                del self._services[info.key]\n"),
     ("R-R4", "rewrite", "C03", R, "        if info.key in self._services:\n            raise ServiceNameAlreadyRegistered\n", "        if self._services.get(info.key) is not None:\n            raise ServiceNameAlreadyRegistered\n"),
+    # ---- _cache.py / C05
+    ("C-M1", "mutation", "C05", C, "        store.pop(record, None)\n        store[record] = record\n        if isinstance", "        store[record] = record\n        if isinstance"),
+    ("C-M2", "mutation", "C05", C, "    del cache[key][record]\n    if not cache[key]:\n        del cache[key]\n", "    del cache[key][record]\n"),
+    ("C-M3", "mutation", "C05", C, "        new = record not in store and not isinstance(record, DNSNsec)\n", "        new = record not in store\n"),
+    ("C-M4", "mutation", "C05", C, "for record in records if record.is_expired(now)]", "for record in records if record.is_stale(now)]"),
+    ("C-M5", "mutation", "C05", C, "        _remove_key(self.cache, record.key, record)\n", "        _remove_key(self.cache, record.name, record)\n"),
+    ("C-M6", "mutation", "C05", C, "        for cached_entry in reversed(list(records)):\n            if type_ == cached_entry.type", "        for cached_entry in list(records):\n            if type_ == cached_entry.type"),
+    ("C-M7", "mutation", "C05", C, "            if self._async_add(entry):\n                new = True\n", "            if self._async_add(entry):\n                new = True\n                break\n"),
+    ("C-M8", "mutation", "C05", C, "            return self.cache.get(entry.key, {}).get(entry)", "            return self.cache.get(entry.name, {}).get(entry)"),
+    ("C-R1", "rewrite", "C05", C, ("store", "bucket"), None),
+    ("C-R2", "rewrite", "C05", C,
+     "        for record in records:\n            if type_ == record.type and class_ == record.class_:\n                matches.append(record)\n        return matches\n",
+     "        return [record for record in records if type_ == record.type and class_ == record.class_]\n"),
+    ("C-R3", "rewrite", "C05", C, "        if store is None:\n            return None\n        return store.get(entry)\n", "        if store is not None:\n            return store.get(entry)\n        return None\n"),
+    ("C-R4", "rewrite", "C05", C, "        return [entry for entry in list(records) if type_ == entry.type and class_ == entry.class_]", "        return [entry for entry in records if type_ == entry.type and class_ == entry.class_]"),
+    ("C-R5", "rewrite", "C05", C, "    del cache[key][record]\n    if not cache[key]:\n        del cache[key]\n", "    store = cache[key]\n    del store[record]\n    if not store:\n        del cache[key]\n"),
     ("R-R5", "rewrite", "C03", R, "        names = index[key]\n        names.remove(name)\n        if not names:\n            del index[key]\n",
      "        index[key].remove(name)\n        if len(index[key]) == 0:\n            del index[key]\n"),
 ]
